@@ -12,8 +12,15 @@ CONSTANTS
   NameAlphabet = {"a","sq","dq","us","hash","semi","dollar","lbr","qm","data_","loop_","save_"}
   NameLen = 1
   Prefs = {"bare"}
+  FormAlphabet = {"a","dot","qm"}
+  FormLen = 2
+  FormShapes = {"s2m","l2m","l3m"}
+  Forms = {"item","list","array","data","col_item","col_list","col_array","col_data","col_data_str","col_item_mask","col_list_mask","col_array_mask","col_data_mask","col_data_listmask"}
+  FormFillers = {"same","cross","junk"}
+  Modes = {"ctor","setitem"}
 CHECK_DEADLOCK FALSE
 INVARIANT InvDomain
+INVARIANT InvFormStores
 INVARIANT InvNoUnknownLoss
 INVARIANT InvKnownBadTight
 INVARIANT InvRefCodecExists
